@@ -30,7 +30,8 @@ FamOf == [ escape_str |-> "esc", escape_sb |-> "esc", escape_os |-> "esc", filte
            urlencode_str |-> "urlenc", urlencode_sb |-> "urlenc", urlencode_os |-> "urlenc", filter_urlencode |-> "urlenc",
            urldecode_str |-> "urldec", urldecode_ptr |-> "urldec",
            b64enc_str |-> "b64enc", b64enc_ptr |-> "b64enc", b64enc_os |-> "b64enc", filter_b64 |-> "b64enc",
-           b64dec_str |-> "b64dec", b64dec_ptr |-> "b64decptr" ]
+           b64dec_str |-> "b64dec", b64dec_ptr |-> "b64decptr",
+           filter_jsescape |-> "jsesc" ]
 
 \* encoders: acceptable in full iff no failure reported; a truncating sink never got more than it accepts
 EncJudge(in, r, Ok(_, _), F(_)) ==
@@ -56,6 +57,7 @@ Judge(in, r) ==
          [] fam = "b64enc" -> /\ EncJudge(in, r, B64EncOk, B64Enc)
                               /\ (r.size # -2 => r.size = EncSize(Len(in)))
                               /\ (r.ret # -2 => r.ret = Len(r.out))
+         [] fam = "jsesc"  -> (Strict => ~r.fail /\ r.out = JsEscape(in))   \* no demand at the property layer
          [] fam = "urldec" -> /\ (UrlPlain(in) => r.out = UrlDecode(in))
                               /\ (Strict => r.out = UrlDecode(in))
          [] fam = "b64dec" -> /\ B64DecStr(in, r.ret, r.out)
